@@ -6,6 +6,7 @@ import (
 	"errors"
 	"fmt"
 	"io"
+	"math"
 	"os"
 	"path/filepath"
 	"runtime/debug"
@@ -367,8 +368,18 @@ func updateConfigFile() {
 	sort.Strings(keys)
 	for _, key := range keys {
 		value := slip.UserPkg.JustGet(key)
+		// The file is read back with the default reader settings no matter
+		// what the print variables, which are among the values saved, are set to.
 		p := *slip.DefaultPrinter()
 		p.Readably = true
+		p.Escape = true
+		p.Base = 10
+		p.Radix = false
+		p.Length = math.MaxInt
+		p.Level = math.MaxInt
+		p.Lines = math.MaxInt
+		p.RightMargin = math.MaxInt
+		p.MiserWidth = 0
 		b = fmt.Appendf(b, "(setq %s ", key)
 		if list, ok := value.(slip.List); ok && 0 < len(list) {
 			b = append(b, '\'')
